@@ -8,7 +8,7 @@ import numpy as np
 import xarray as xr
 
 SPECTRA = ("geometric", "flat_pair", "clustered", "rank_def", "near_equal_var")
-EXTRA_SPECTRA = ("slow",)  # requested by name only, not part of the loops over SPECTRA
+EXTRA_SPECTRA = ("slow", "steep")  # requested by name only, not part of the loops over SPECTRA
 
 
 def spectrum(kind, r):
@@ -29,6 +29,8 @@ def spectrum(kind, r):
         s[nz:] = 0.0
     elif kind == "near_equal_var":
         s = 4.0 * (1.0 - 0.05 * i / max(1, r - 1))
+    elif kind == "steep":  # one decade per mode: a wide dynamic range (condition 10^(r-1)), every gap a factor of ten
+        s = 8.0 * 10.0 ** (-i)
     elif kind == "slow":  # slowly decaying, every gap >= 1 %: a truncated sketch of it is genuinely lossy (not in SPECTRA: requested by name)
         s = 4.0 / (1.0 + 0.25 * i)
     else:
